@@ -401,6 +401,7 @@ type Contract struct {
 	Line     int
 	Induct   string // lemma: induction variable
 	UsesLemmas []*SCall
+	FnSpecs  map[string]string
 	Witness  []*Clause // named spec expressions read back from a counter-model for replay
 	Notes    []string
 }
@@ -692,6 +693,17 @@ func ReadContractFile(path, pkgPath string) ([]*Contract, error) {
 					return nil, fmt.Errorf("%s:%d: %v", path, l.n, err)
 				}
 				tgt.Witness = append(tgt.Witness, &Clause{Kind: "witness", Label: strings.TrimSpace(rest[:j]), Src: rest[j+1:], Expr: e, Line: l.n, File: path})
+			case "fnspec":
+				// fnspec <param>: <kind>   contract of a function-typed parameter or local
+				//   nonnil-on-success : touches no modelled state; pointer results are non-nil iff the error result is nil
+				j := strings.Index(rest, ":")
+				if j < 0 {
+					return nil, fmt.Errorf("%s:%d: fnspec needs name: kind", path, l.n)
+				}
+				if tgt.FnSpecs == nil {
+					tgt.FnSpecs = map[string]string{}
+				}
+				tgt.FnSpecs[strings.TrimSpace(rest[:j])] = strings.TrimSpace(rest[j+1:])
 			case "induction":
 				tgt.Induct = rest
 			case "uses":
